@@ -66,9 +66,16 @@ def run_harness(dst, h, timeout):
     checks = int(m.group(2)) if m else 0
     nfail = int(m.group(1)) if m else 0
     fails = re.findall(r'Failed Checks: ([^\n]*)', out)
-    unsupported = bool(re.search(r'not currently supported by Kani|unsupported_construct', out))
-    if unsupported:
-        failed = False
+    # a reached construct Kani cannot model shows up as a FAILED check whose description says so; only when every failed
+    # check is of that kind is the harness "unsupported" (inconclusive) rather than failed.  (Passing checks of the
+    # category `unsupported_construct` are listed in every output and mean nothing.)
+    unsup = [f for f in fails if re.search(r'not currently supported by Kani|is not supported|unsupported', f)]
+    real = [f for f in fails if f not in unsup]
+    unsupported = failed and not real and bool(unsup)
+    if failed and not fails and nfail == 0:
+        unsupported = False
+    failed = failed and (bool(real) or (not unsup))
+    fails = real or fails
     return dict(harness=name, bounded=h.get('bounded', False), bound=h.get('bound', ''), ok=ok, failed=failed, timeout=to,
                 checks=checks, failed_checks=nfail, failures=fails[:5], wall_s=round(wall, 1), unsupported=unsupported,
                 tail=out[-600:] if not ok else '')
